@@ -187,7 +187,8 @@ def generate():
         fields += fl; arrays += ar
     # legacy.h: the assert_true()/assert_false() macros (format and the expression passed as argument)
     legacy = open(os.path.join(REPO, "include", "cgreen", "legacy.h")).read()
-    legacy_fmts = re.findall(r'#define (assert_(?:true|false))\(result\) \\\n\s*\(\*(?:cgreen::)?get_test_reporter\(\)->assert_true\)\((?:cgreen::)?get_test_reporter\(\), FILENAME, __LINE__, [^,]+, (.*)\)', legacy)
+    # (the reporter may be spelled get_test_reporter(), cgreen::get_test_reporter() or through a macro of the header's own)
+    legacy_fmts = [(m[0], m[2]) for m in re.findall(r'#define (assert_(?:true|false))\(result\) \\\n\s*\(\*([\w:]+(?:\(\))?)->assert_true\)\(\2, FILENAME, __LINE__, [^,]+, (.*)\)', legacy)]
     return sites, fields, arrays, legacy_fmts
 
 
@@ -250,7 +251,7 @@ def render(sites, fields, arrays, legacy_fmts):
         "",
         "/-- Obligation 4: the legacy assert_true()/assert_false() macros pass the expression text as an argument of a `%s`",
         "format (never spliced into the format). -/",
-        "theorem legacy_macros_use_percent_s : legacyMacros.length = 4 ∧ legacyMacros.all (fun m => " + lean_chars('"[%s] should be ') + ".isPrefixOf m.2 && " + lean_chars("STRINGIFY_TOKEN(result)") + ".isSuffixOf m.2) = true := by decide +kernel",
+        "theorem legacy_macros_use_percent_s : (legacyMacros.map (·.1)).contains \"assert_true\" = true ∧ (legacyMacros.map (·.1)).contains \"assert_false\" = true ∧ legacyMacros.all (fun m => " + lean_chars('"[%s] should be ') + ".isPrefixOf m.2 && " + lean_chars("STRINGIFY_TOKEN(result)") + ".isSuffixOf m.2) = true := by decide +kernel",
         "",
     ]
     L += render_size(arrays)
